@@ -534,6 +534,10 @@ impl Prop for C15 {
         for f in ["8/8/4k3/8/8/3K4/8/8 w - - 0 1", "7k/8/8/8/8/8/8/KB6 w - - 0 1", "8/8/8/p1p1p1p1/P1P1P1P1/8/4k3/K7 w - - 0 1"] {
             cases.push(BoundsCase::SelfPlay { fen: f.to_string() });
         }
+        // fortresses in which both sides have a single legal move for ever: self-play can only end at the length guard
+        for f in crate::props::c08::LOCKED {
+            cases.push(BoundsCase::SelfPlay { fen: f.to_string() });
+        }
         // a root searched as deep as it goes (bare kings, a locked fortress: the depth ceiling is reached in a fraction
         // of a second), then the same root at the end of a 396-ply record of shuffles - where far less depth fits
         // under the per-ply state stack than the table remembers - searched again in three ways
